@@ -296,6 +296,16 @@ class Lifting(Monitor):
             ctx.violation("C05", "selected_unit_has_non_negative_derivative",
                           {"selected": selected, "derivative": rates[selected], "table": rows,
                            "scheme": lifting.__class__.__name__})
+        # the table of a factor sums to zero (translation invariance); the balance "inflow of k = |q_k|" presupposes it
+        total_abs_now = sum(abs(r[0]) for r in rows)
+        if total_abs_now > 0.0:
+            relative_residual = abs(sum(r[0] for r in rows)) / total_abs_now
+            if relative_residual > ctx.notes.get("c05_largest_relative_residual_of_a_table", 0.0):
+                ctx.notes["c05_largest_relative_residual_of_a_table"] = relative_residual
+            if relative_residual > 1e-7:
+                ctx.violation("C05", "table_handed_to_the_scheme_does_not_sum_to_zero",
+                              {"table": rows, "relative_residual": relative_residual,
+                               "scheme": lifting.__class__.__name__})
         actives = [i for i, r in enumerate(rows) if r[2]]
         if len(actives) != 1:
             ctx.violation("C05", "table_without_exactly_one_active_unit", {"table": rows})
